@@ -4,4 +4,5 @@ import Cpppo.Props.C04
 import Cpppo.Props.C05
 import Cpppo.Props.C07
 import Cpppo.Props.C10
+import Cpppo.Props.C17
 import Cpppo.Props.C19
